@@ -301,7 +301,8 @@ TEXT = ("Fault enumeration: for every generated update every write position and 
         "injected (exhaustive per update; ~6 000 crash points quick, ~400 000 thorough), each on a fresh copy of the "
         "state, checking exception delivery, the event prefix against the fault-free reference, contents, "
         "definitions, index supports, verify() and recovery by a fault-free repeat against the pull-model shadow; "
-        "plus random sequences of 2-3 faults in a row. The graphs and updates themselves are sampled.")
+        "plus random sequences of 2-3 faults in a row. The graphs and updates themselves are sampled."
+        ' The injected fault rotates over subclasses of 11 exception classes (StopIteration, KeyError, AttributeError, OverflowError, TypeError, ValueError, IndexError, RuntimeError, LookupError, ArithmeticError, custom).')
 NOTE = ("Trusted: fault injection through the tracing containers / function container (faults inside C-level code "
         "or outside container writes are not modelled); reference and faulted runs share process, hash seed and "
         "start order so their schedules coincide. KF3 (partial LinearKnob run) is classified by mechanism.")
